@@ -118,8 +118,10 @@ class _SimpleWrapped(object):
 
     __signature__ = specifiers.as_forged
 
-    def __call__(self, *args, **kwargs):
-        return self.func(*args, **kwargs)
+    def __call__(_sigtools__self, *args, **kwargs):
+        # not named self: the signature discovered for this call is combined
+        # with the wrapped function's, which may have a self parameter
+        return _sigtools__self.func(*args, **kwargs)
 
     def __get__(self, instance, owner):
         return type(self)(
